@@ -738,8 +738,15 @@ func (d *Data) GetMask(ctx *datastore.VersionedCtx, subvol *dvid.Subvolume) ([]b
 	}
 
 	// Allocate the mask volume.
-	data := make([]uint8, subvol.NumVoxels())
 	size := subvol.Size()
+	if size.Value(0) < 1 || size.Value(1) < 1 || size.Value(2) < 1 {
+		return nil, fmt.Errorf("mask size %s must be at least one voxel in each dimension", size)
+	}
+	numVoxels := subvol.NumVoxels()
+	if numVoxels < 1 || numVoxels > server.MaxDataRequest {
+		return nil, fmt.Errorf("mask of %d voxels exceeds the size limit for a request", numVoxels)
+	}
+	data := make([]uint8, numVoxels)
 	nx := size.Value(0)
 	nxy := size.Value(1) * nx
 
